@@ -414,7 +414,8 @@ func rawCases(c *core.Ctx, emit func(class, desc string, raw []byte)) {
 	}
 	// boundary values of each size / type field
 	bv := func(exact uint32) []uint32 {
-		return []uint32{0, 1, exact - 1, exact, exact + 1, 0xffff, 0x10000, 0x7fffffff, 0xffffffff}
+		return []uint32{0, 1, exact - 1, exact, exact + 1, 0xffff, 0x10000, 0x7fffffff, 0xffffffff,
+			exact + 0x100, exact + 0x10000, exact + 0x1000000, exact | 0x80000000} // the exact value in the low byte(s) only
 	}
 	sp := randSpec(r, 20, 60, 5)
 	exactSd := uint32(len(sp.bytes()) - 636 - 5)
@@ -699,13 +700,17 @@ func C09(c *core.Ctx) {
 				// the parsed quote is a function of the bytes given, not of what the caller does
 				// with its buffer afterwards
 				buf := append([]byte{}, raw...)
-				if q2, err := abi.QuoteToProto(buf); err == nil {
-					for i := range buf {
-						buf[i] ^= 0xff
+				if p := safely(func() {
+					if q2, err := abi.QuoteToProto(buf); err == nil {
+						for i := range buf {
+							buf[i] ^= 0xff
+						}
+						if out, err := abi.QuoteToAbiBytes(q2); err != nil || !bytes.Equal(out, raw) {
+							gt = "after the caller overwrote its input buffer, serialising the quote parsed from it no longer reproduces the bytes that were parsed"
+						}
 					}
-					if out, err := abi.QuoteToAbiBytes(q2); err != nil || !bytes.Equal(out, raw) {
-						gt = "after the caller overwrote its input buffer, serialising the quote parsed from it no longer reproduces the bytes that were parsed"
-					}
+				}); p != nil {
+					gt = fmt.Sprintf("parse / serialise panicked on a second run over the same bytes: %v", p)
 				}
 			}
 		}
